@@ -16,6 +16,7 @@ import re as _re
 from typing import Dict, List, Optional, Tuple
 
 from ..core import (
+    clone,
     Unrecognised,
     Slot,
     call_name,
@@ -58,9 +59,7 @@ def strip_casts(node: ast.AST) -> ast.AST:
                 return n.args[1]
             return n
 
-    import copy
-
-    return T().visit(copy.deepcopy(node))
+    return T().visit(clone(node))
 
 
 def nsrc(node: ast.AST) -> str:
